@@ -53,8 +53,59 @@ type Conn struct {
 	A, B *End
 }
 
+// holdConn is the conn handed to the router. Once armed, a failed Read does not
+// return before the harness says so: the reader goroutine of a link whose
+// connection was closed under it gets to see that only later (a schedule
+// point: the goroutine is simply slow to run).
+type holdConn struct {
+	net.Conn
+	mu   sync.Mutex
+	hold chan struct{}
+}
+
+func (h *holdConn) Read(p []byte) (int, error) {
+	n, err := h.Conn.Read(p)
+	if err != nil {
+		h.mu.Lock()
+		ch := h.hold
+		h.mu.Unlock()
+		if ch != nil {
+			<-ch
+		}
+	}
+	return n, err
+}
+
+// HoldReadError makes the next failing Read of the router's side wait for
+// ReleaseReadError.
+func (e *End) HoldReadError() {
+	if h, ok := e.Router.(*holdConn); ok {
+		h.mu.Lock()
+		if h.hold == nil {
+			h.hold = make(chan struct{})
+		}
+		h.mu.Unlock()
+	}
+}
+
+// ReleaseReadError lets a held failing Read return.
+func (e *End) ReleaseReadError() {
+	if h, ok := e.Router.(*holdConn); ok {
+		h.mu.Lock()
+		if h.hold != nil {
+			select {
+			case <-h.hold:
+			default:
+				close(h.hold)
+			}
+		}
+		h.mu.Unlock()
+	}
+}
+
 func newEnd(n *vnet.Node, outgoing bool) *End {
-	r, p := net.Pipe()
+	r0, p := net.Pipe()
+	var r net.Conn = &holdConn{Conn: r0}
 	e := &End{Node: n, Router: r, relay: p, notify: make(chan struct{}, 4096), eof: make(chan struct{}), Outgoing: outgoing, done: make(chan struct{})}
 	go e.reader()
 	return e
